@@ -3,6 +3,7 @@ import I18n.Lemmas.EvalSpec
 import I18n.Lemmas.ParseSound
 import I18n.Lemmas.ParseString
 import I18n.Lemmas.LRNoCrash
+import I18n.Lemmas.ParseCFG
 import I18n.Generated.PluralGrammar
 import I18n.Spec.PluralY
 /-!
@@ -189,6 +190,27 @@ theorem lr_iff_derives (ts : List PluralParse.Tok) (e : Expr) :
 theorem lr_accept_iff_plural_y (ts : List PluralParse.Tok) : (∃ e, PluralLR.lrParse ts = .ok e) ↔ Spec.Amb ts := by
   rw [← accept_iff_plural_y]
   exact ⟨fun ⟨e, h⟩ => ⟨e, (lr_iff_parse ts e).1 h⟩, fun ⟨e, h⟩ => ⟨e, (lr_iff_parse ts e).2 h⟩⟩
+
+/-- **`Amb` is not a transcription to be trusted**: it is the language of the productions the tool hands to rply
+    (dumped from the live parser every run), read as a plain context-free grammar with start symbol `start`. -/
+theorem plural_y_is_declared_grammar (ts : List PluralParse.Tok) :
+    Spec.Gen PluralParse.dumpedProductions ["start"] ts ↔ Spec.Amb ts := PluralParse.gen_iff_amb ts
+
+/-- **rply's table construction, validated for this grammar**: the tables it built accept exactly the language of
+    the grammar it was given (no sentence lost or gained by LALR merging or by precedence-based conflict resolution) … -/
+theorem lr_language_is_declared_grammar (ts : List PluralParse.Tok) :
+    (∃ e, PluralLR.lrParse ts = .ok e) ↔ Spec.Gen PluralParse.dumpedProductions ["start"] ts := by
+  rw [plural_y_is_declared_grammar]; exact lr_accept_iff_plural_y ts
+
+/-- the two hand-written token-kind maps (column of the action table, grammar symbol name) agree through the dumped
+    column names -/
+theorem kind_columns_agree (t : PluralParse.Tok) :
+    Generated.PluralLR.terminals[PluralLR.col (some t)]? = some (Spec.kindName t) := by
+  cases t with
+  | bool op => cases op <;> rfl
+  | cmp op => cases op <;> rfl
+  | bin op => cases op <;> rfl
+  | _ => rfl
 
 /-- end to end with the LR driver in the place of the recursive-descent model -/
 theorem lr_parse_string_iff (s : List Char) (e : Expr) :
